@@ -308,7 +308,7 @@ class DecoyFasta():
         logger = get_logger()
         with open(self.input_path, 'rt') as handle:
             self.target_db = list(SeqIO.parse(handle, format='fasta'))
-            self.target_db.sort(key=lambda x: x.seq)
+            self.target_db.sort(key=lambda x: (x.seq, x.description))
 
         self._target_pool = {x.seq for x in self.target_db}
 
